@@ -11,6 +11,8 @@ forms, language tags differing in case, nasty Unicode):
 from __future__ import annotations
 
 import copy
+import datetime
+import decimal
 import pickle
 
 from hypothesis import strategies as st
@@ -209,6 +211,19 @@ def run_pickle(case):
             if not (r == t) or hash(r) != hash(t):
                 out.fail(("survives-unequal", name.rstrip("2345")), f"{name}: {t!r} -> {r!r}")
                 return out
+            if isinstance(t, Literal):
+                # the copy is the same literal in value space too
+                v1, v2 = sut(lambda: t.value), sut(lambda: r.value)
+                plain = (int, float, decimal.Decimal, bool, str, bytes, datetime.date, datetime.time, datetime.datetime, datetime.timedelta, type(None))
+                if not is_err(v1) and isinstance(v1, plain):
+                    same_val = not is_err(v2) and type(v1) is type(v2) and (v1 == v2 or (v1 != v1 and v2 != v2))
+                    if not same_val:
+                        out.fail(("survives-value-changed", name.rstrip("2345"), kind(t)), f"{name}: {t!r} value {v1!r} -> {v2!r}")
+                        return out
+                    e0, e1 = sut(t.eq, t), sut(t.eq, r)
+                    if not is_err(e0) and e0 is True and (is_err(e1) or e1 is not True):
+                        out.fail(("survives-not-eq", name.rstrip("2345"), kind(t)), f"{name}: {t!r}.eq(copy) = {e1!r}")
+                        return out
             out.sub_evals += 1
     return out
 
